@@ -48,6 +48,12 @@ Check eq_refl : l1_vw_mid = fun l =>
   end.
 Check eq_refl : mevent_wf = fun e => match e with ML1 t l => l1_time l = t | _ => True end.
 
+Check C15_oracle_sound : forall c,
+  Corr.C15.wf_case c = true -> Corr.C15.corr_b c = true ->
+  forallb (fun v => N.eqb v 0 || N.eqb v 1) (Corr.C15.verdicts c) = true /\
+  (Corr.C15.prop_b c = true \/ Corr.C15.known_b c = 1%N) /\
+  (Corr.C15.judge c = 0%N \/ Corr.C15.judge c = 101%N).
+
 (* the definitions the statements rest on *)
 Check eq_refl : tracks = fun h =>
   match is_pos (irun h), g_ref (grun h) with
